@@ -442,6 +442,7 @@ def run(cr: CheckRun) -> None:
         for kname in only_rs:
             cr.violation(f"MetadataFields:only-rs:{kname}", f"snapshot.json field '{kname}' is written by Rust only", {"kind": "layout"})
     cr.cov["programs"] = n
+    cr.cov["traces_validated_against_impl"] = n
     cr.cov["evaluations"] = n
     cr.cov["traces"] = n
     cr.cov["distinct_nontrivial"] = n
